@@ -257,14 +257,14 @@ pub fn def() -> PropertyDef {
         assumptions: vec!["how each promise enters the Fiat-Shamir transcript is decided separately by C04 (promise perturbations)".into()],
         exhaustive: false,
         subs: vec![
-            subst_sub::<F>((6000, 200_000)),
-            subst_sub::<R>((600, 10_000)),
-            boundary_sub::<F>((2000, 60_000)),
-            boundary_sub::<R>((250, 4000)),
+            subst_sub::<F>((30_000, 400_000)),
+            subst_sub::<R>((3000, 25_000)),
+            boundary_sub::<F>((10_000, 120_000)),
+            boundary_sub::<R>((1200, 10_000)),
             sub(
                 "F/garbage-h-coordinate",
                 lat::<F>,
-                (2000, 60_000),
+                (8000, 100_000),
                 |ctx: &RunCtx, f: Option<&Cfg>| {
                     (cfgs::<F>(ctx, f), any::<u64>(), ctx_strategy(), 0u8..4).prop_map(|(cfg, bulk, ctx, terms)| GarbageSpec {
                         cfg,
